@@ -1,15 +1,43 @@
 (* C08 — State replies are decoded into exactly what the device reported *)
-Require Import AS.Base.Prelude AS.Base.Hex AS.Base.Dec AS.Model.Messages AS.Spec.Encoders AS.Proofs.MessagesProofs.
-
-(* partial (type-1 state reply): parse o encode = identity for all field values and all filler *)
+Require Import AS.Base.Prelude AS.Base.Hex AS.Base.Dec AS.Base.Utf8 AS.Gen.Extracted AS.Model.Messages AS.Spec.Encoders
+  AS.Proofs.MessagesProofs AS.Proofs.RepliesProofs AS.Proofs.FloatProofs AS.Base.Float.
 Local Open Scope N_scope.
-Theorem C08_state_reply_roundtrip_partial f0 f1 f2 f3 st pw tl ton au :
+
+(* parse o encode = identity, for all field values and all filler bytes, for each reply kind *)
+Theorem C08_type1_state_reply f0 f1 f2 f3 st pw tl ton au :
   length f0 = 75%nat -> length f1 = 1%nat -> length f2 = 8%nat ->
   (st = 0 \/ st = 1) -> pw < 65536 -> tl < 86400 -> ton < 86400 -> au < 86400 ->
   parse_state_reply (encode_state_reply f0 f1 f2 f3 st pw tl ton au) =
   Ok {| sf_state := st; sf_time_left := fmt_hhmmss tl; sf_time_on := fmt_hhmmss ton;
         sf_auto := fmt_hhmmss au; sf_power := pw |}.
 Proof. exact (state_reply_roundtrip f0 f1 f2 f3 st pw tl ton au). Qed.
-Print Assumptions C08_state_reply_roundtrip_partial.
-Local Close Scope N_scope.
+Print Assumptions C08_type1_state_reply.
 
+Theorem C08_shutter_reply f0 f1 f2 pos dname dvalue ddisp :
+  length f0 = 76%nat -> length f1 = 1%nat -> pos < 256 -> In (dname, dvalue, ddisp) shutter_directions ->
+  parse_shutter_reply (encode_shutter_reply f0 f1 f2 pos (unhex_str dvalue)) =
+  Ok {| sh_position := pos; sh_direction := dname |}.
+Proof. exact (shutter_reply_roundtrip f0 f1 f2 pos dname dvalue ddisp). Qed.
+Print Assumptions C08_shutter_reply.
+
+Theorem C08_thermostat_reply f0 f1 f2 temp10 (on : bool) mname mvalue mdisp target fname fvalue fdisp fan (swing : bool) remote :
+  length f0 = 76%nat -> length f1 = 2%nat -> temp10 < 65536 -> target < 256 -> fan < 16 ->
+  In (mname, mvalue, mdisp) thermostat_modes -> In (fname, fvalue, fdisp) fan_levels -> [hexdigit fan] = s2l fvalue ->
+  (length remote <= 8)%nat -> utf8_valid remote = true -> last remote 1 <> 0 ->
+  parse_thermostat_reply
+    (encode_thermostat_reply f0 f1 f2 temp10 (if on then 1 else 0) (match unhex_str mvalue with [m] => m | _ => 0 end) target
+       (16 * fan + (if swing then 1 else 0)) (pad0 8 remote)) =
+  Ok {| tf_on := on; tf_mode := mname; tf_fan := fname; tf_temp10 := temp10; tf_target := target;
+        tf_swing_on := swing; tf_remote := remote |}.
+Proof. exact (thermostat_reply_roundtrip f0 f1 f2 temp10 on mname mvalue mdisp target fname fvalue fdisp fan swing remote). Qed.
+Print Assumptions C08_thermostat_reply.
+
+Theorem C08_login_reply f0 session f1 : length f0 = 8%nat -> length session = 4%nat ->
+  login_session (encode_login_reply f0 session f1) = hexlify session.
+Proof. exact (login_reply_session f0 session f1). Qed.
+Print Assumptions C08_login_reply.
+
+(* amps = watts / 220 to one decimal, for every 16-bit wattage (bit-exact float model) *)
+Theorem C08_amps w : (w < 65536)%N -> (Z.abs (Z.of_N w - 22 * amps_tenths (Z.of_N w)) <= 11)%Z.
+Proof. exact (amps_ok w). Qed.
+Print Assumptions C08_amps.
